@@ -332,6 +332,29 @@ def pool_pressure_config(rng):
     return cfg
 
 
+def setup_roots_config(rng):
+    """setup(root_nodes=[r]) on setup nodes that form a diamond (or a chain with a side input) below r: a join starts only
+    after ALL its dependencies have returned, also in a setup run restricted by roots (C02), then the DAG is called."""
+    shape = rng.choice(["diamond", "diamond", "double"])
+    if shape == "diamond":
+        deps = [[], [1], [1], [2, 3]]
+    else:
+        deps = [[], [1], [1], [2, 3], [3, 4]]
+    ns = len(deps)
+    nreg = rng.randint(1, 2)
+    for _ in range(nreg):
+        deps.append(sorted(rng.sample(range(1, ns + 1), rng.randint(1, 2))))
+    n = len(deps)
+    res = [rng.choice(["thread", "thread", "async"]) for _ in range(n)]
+    prio = [rng.choice([0, 1, 2, 5]) for _ in range(n)]
+    cfg = {"n": n, "deps": deps, "mc": rng.choice([2, 2, 3]), "prio": prio, "seq": [False] * n, "res": res, "bad": [],
+           "act": [None] * n, "truthy": [True] * n, "setup": [True] * ns + [False] * nreg, "debug": [False] * n, "run_debug": False,
+           "ops": [["setup", {"r": [1]}], "call"], "kw": [[False] * len(d) for d in deps], "fn": list(range(1, n + 1)), "profile": False,
+           "flavour": rng.choice(["sync", "sync", "async"])}
+    cfg["cid"] = cfg_key(cfg)
+    return cfg
+
+
 def seq_hold_config(rng):
     """A sequential node that is started while other nodes are ready, and whose function takes a while: the scheduler has to
     stay blocked until it has returned, however long that takes (C05; the controller is patient here, see rt.PATIENCE)."""
@@ -403,6 +426,18 @@ def project(cfg, run):
         if ev["e"] == "op":
             if ev["k"] == "setup":
                 sel = [k for k in range(1, n + 1) if setup[k - 1] and k not in done_setup]
+                op_now = cfg["ops"][sum(1 for e2 in events[:pos + 1] if e2["e"] in ("op", "op_skipped")) - 1] if cfg.get("ops") else "setup"
+                if not isinstance(op_now, str) and op_now[0] == "setup" and op_now[1].get("r"):
+                    # setup(root_nodes=R): the setup nodes that depend on R (R included)
+                    reach = set(op_now[1]["r"])
+                    grew = True
+                    while grew:
+                        grew = False
+                        for k in range(1, n + 1):
+                            if k not in reach and set(deps[k - 1]) & reach:
+                                reach.add(k)
+                                grew = True
+                    sel = [k for k in sel if k in reach]
             elif ev["k"] == "exec":
                 # the selection itself is engine E3's subject: take the executed graph as given and check scheduling on it
                 sel = []
